@@ -3,7 +3,7 @@
 
 usage: tools/seeded_results.py [TAG:COMMIT:LOG ...]
 Each TAG:COMMIT:LOG names a log of runs of an *earlier* verif commit against the changes of one round (TAG H = round 2,
-R = round 3; lines `OLD C09/A C09 exit=1 signature: ...;`); the outcome is stored in meta.json as `before_strengthening`."""
+R = round 3, S = round 4; lines `OLD C09/A C09 exit=1 signature: ...;`); the outcome is stored in meta.json as `before_strengthening`."""
 import json
 import os
 import re
@@ -41,10 +41,11 @@ def main():
     r1 = [r for r in rows if re.search(r"-[AB]$", r[0])]
     r2 = [r for r in rows if re.search(r"-H[AB]$", r[0])]
     r3 = [r for r in rows if re.search(r"-R[AB]$", r[0])]
+    r4 = [r for r in rows if re.search(r"-S[AB]$", r[0])]
     with open(os.path.join(BASE, "RESULTS.md"), "w") as f:
         f.write(
             "# Seeded changes: which checks catch which\n\n"
-            "Each directory `seeded/<property>-<A|B>/` (round 1), `seeded/<property>-H<A|B>/` (round 2) or `seeded/<property>-R<A|B>/` (round 3)\n"
+            "Each directory `seeded/<property>-<A|B>/` (round 1), `seeded/<property>-H<A|B>/` (round 2) or `seeded/<property>-R<A|B>/` (round 3), `seeded/<property>-S<A|B>/` (round 4)\n"
             "holds a change to joholl/tpmstream written by an independent sub-agent that was given only the text of one property and its own\n"
             "scratch git worktree of /repo (nothing from /verif): `patch.diff`, the agent's demonstration `demo.py` (exits 1 with the change,\n"
             "0 without), its `notes.md` (what was changed and what is needed for it to manifest) and `meta.json` (property, how it was\n"
@@ -73,6 +74,11 @@ def main():
                 "\"Before\" = the quick checks after the strengthening of round 2 and before that of round 3 (verif commit 2d86922): a measure of\n"
                 "how far the round-2 strengthening generalises to unseen changes of the same kind.",
             ),
+            (
+                "Round 4 - as round 3, for the other ten properties",
+                r4,
+                "\"Before\" = the quick checks after the strengthening of round 3 (verif commit 60619f4).",
+            ),
         ):
             if not rr:
                 continue
@@ -85,7 +91,7 @@ def main():
         f.write("\n## All kept changes\n\n| change | property | before strengthening | caught by now (quick tier) | signatures |\n|--------|----------|----------------------|----------------------------|------------|\n")
         for r in rows:
             f.write(f"| {r[0]} | {r[1]} | {r[2]} | {r[3]} | {r[4][:260]} |\n")
-    for label, rr in (("round1", r1), ("round2", r2), ("round3", r3)):
+    for label, rr in (("round1", r1), ("round2", r2), ("round3", r3), ("round4", r4)):
         print(label, len(rr), "before:", sum(1 for r in rr if r[2] != "missed"), "now:", sum(1 for r in rr if r[3] != "MISSED"))
 
 
